@@ -3,7 +3,7 @@ NEXT GenNext
 CONSTANTS
   StrictKeyed = FALSE
   Dev = "none"
-  Families = {"utf8", "maxlen", "scalar", "single", "shape", "long", "nest", "wide", "meta", "marker"}
+  Families = {"rawbool", "utf8", "maxlen", "scalar", "single", "shape", "long", "nest", "wide", "meta", "marker"}
   TextLens = {0, 1, 2, 300}
   Scalars = {}
   Keys = {}
